@@ -5,7 +5,8 @@
    must predict the result class (else conformance drift).
    Lines:  {"a":"cfg","acps":[..],"ents":{id:entry}}       configuration in force = pre-state
            {"a":"op","op":..,"id":..,"f":filter,"ml":[{"k","a","v":[..]}],"new":entry,
-            "m":[candidate ids],"res":..,"post":{id: entry changed or created}} *)
+            "m":[candidate ids],"res":..,"post":{id: entry changed or created}}
+           op "batch" carries "mods":{id:[items]} instead of one "ml"; items may have k = "set" *)
 EXTENDS KAccessNorm, Json, IOUtils
 Rec == ndJsonDeserialize(IOEnv.TRACE)
 VARIABLES l, c
@@ -13,11 +14,16 @@ VARIABLES l, c
 ReviveMl == <<[k |-> "rem", a |-> "class", v |-> {"recycled"}]>>
 
 PostOf(Pre, r) == [x \in DOMAIN Pre \cup DOMAIN r.post |-> IF x \in DOMAIN r.post THEN NEnt(x, r.post[x]) ELSE Pre[x]]
+Mods(r) == [x \in DOMAIN r.mods |-> NMl(r.mods[x])]
+\* signature of a failed batch: judged like a modify of its first offending entry
+BatchMl(r) == LET bad == {x \in DOMAIN r.mods : TRUE} IN NMl(r.mods[CHOOSE x \in bad : TRUE])
+
 LineL1(C, r) ==
   LET S == NProfs(C.acps)  Pre == NEnts(C.ents)  id == NId(r.id)  Post == PostOf(Pre, r) IN
   r.res = "ok" =>
-    CASE r.op = "modify" -> L1Modify(S, id, "modify", NMl(r.ml), Pre, Post)
-      [] r.op = "revive" -> L1Modify(S, id, "revive", ReviveMl, Pre, Post)
+    CASE r.op = "modify" -> L1Modify(S, id, "modify", NMl(r.ml), Range(r.m) \cap DOMAIN r.post, Pre, Post)
+      [] r.op = "batch" -> L1Batch(S, id, Mods(r), Pre, Post)
+      [] r.op = "revive" -> L1Modify(S, id, "revive", ReviveMl, Range(r.m) \cap DOMAIN r.post, Pre, Post)
       [] r.op = "create" -> L1Create(S, id, NEnt(r.new.id, r.new), Pre, Post)
       [] r.op = "delete" -> L1Delete(S, id, Pre, Post)
       [] OTHER -> FALSE
@@ -28,6 +34,9 @@ LineSig(C, r) ==
   THEN (IF ~CanWrite(id) THEN "scope-or-origin"
         ELSE IF Range(r.new.attrs["class"]) \cap ProtectedPres # {} THEN "protected-class-created"
         ELSE "not-granted")
+  ELSE IF r.op = "batch" THEN (IF ~CanWrite(id) THEN "scope-or-origin"
+                               ELSE IF \E x \in DOMAIN Pre \cap DOMAIN Post : ~RegardlessOk("modify", Pre[x], Post[x]) THEN "protected-rule"
+                               ELSE "not-granted")
   ELSE WriteSig(S, id, r.op, IF r.op = "revive" THEN ReviveMl ELSE NMl(r.ml), Pre, Post)
 
 Pass(res) == res \notin {"nomatch", "denied"}
@@ -41,11 +50,13 @@ LineL2(C, r) ==
       pred == CASE r.op = "modify" -> cls(modok, CodeAttrs(r.f))
                 [] r.op = "revive" -> cls(revok, CodeAttrs(r.f) \cup {"class"})
                 [] r.op = "delete" -> cls(delok, CodeAttrs(r.f))
+                [] r.op = "batch" -> L2BatchClass(S, Y, E, id, m, Mods(r))
                 [] r.op = "create" -> IF L2CreateAllowed(S, id, NEnt(r.new.id, r.new)) THEN "pass" ELSE "denied"
                 [] OTHER -> "none"
   IN  /\ m \subseteq DOMAIN E
       /\ CASE pred = "nomatch" -> r.res = "nomatch"
            [] pred = "denied" -> r.res = "denied"
+           [] pred = "missing" -> r.res = "err_MissingEntries"
            [] OTHER -> Pass(r.res)
 
 Init == l = 1 /\ c = 0
